@@ -5,6 +5,7 @@ import (
 	"fmt"
 	"os"
 	"path/filepath"
+	"sort"
 	"strings"
 
 	"wvsa/internal/facts"
@@ -15,6 +16,7 @@ import (
 // repository function to stdout as JSON (see facts.PinnedParams).
 func cmdPinParams(args []string) int {
 	out := map[string][]string{}
+	var funcs []string
 	for _, m := range []struct {
 		dir  string
 		pats []string
@@ -25,6 +27,9 @@ func cmdPinParams(args []string) int {
 			return 2
 		}
 		for _, f := range p.SrcFuncs("") {
+			if f.Parent() == nil {
+				funcs = append(funcs, facts.FuncName(f))
+			}
 			var ps, fs []string
 			for _, x := range f.Params {
 				ps = append(ps, x.Name())
@@ -45,6 +50,8 @@ func cmdPinParams(args []string) int {
 			out[k+"#locals"] = v
 		}
 	}
+	sort.Strings(funcs)
+	out["#functions"] = funcs
 	b, _ := json.MarshalIndent(out, "", " ")
 	os.Stdout.Write(b)
 	return 0
@@ -59,6 +66,9 @@ func loadPinnedParams(verif string) {
 	m := map[string][]string{}
 	if json.Unmarshal(b, &m) == nil {
 		facts.PinnedParams = m
+		for _, f := range m["#functions"] {
+			facts.PinnedFuncs[f] = true
+		}
 		for k, v := range m {
 			if strings.HasSuffix(k, "#locals") {
 				facts.PinnedLocals[strings.TrimSuffix(k, "#locals")] = v
